@@ -1,3 +1,4 @@
+use super::bitboard::Bitboard;
 use super::square::Square;
 use crate::chess::colour::Colour;
 use crate::chess::piece::Piece;
@@ -66,18 +67,55 @@ impl Position {
         if !npos.us_ksc && !npos.us_qsc && !npos.them_ksc && !npos.them_qsc {
             fen += " -";
         } else {
+            // K/Q/k/q name the outermost rook of the wing; any other castling rook needs its
+            // file letter (Shredder-FEN) or the right would parse back onto the wrong rook
+            let letter = |is_white: bool, is_ksc: bool, file: u8| -> char {
+                let side = if is_white {
+                    npos.get_us()
+                } else {
+                    npos.get_them()
+                };
+                let home = if is_white {
+                    Bitboard(0xFF)
+                } else {
+                    Bitboard(0xFF00000000000000)
+                };
+                let ksq = (side & npos.get_kings()).lsb();
+                let wing = if is_ksc {
+                    Bitboard::ray_east(ksq)
+                } else {
+                    Bitboard::ray_west(ksq)
+                };
+                let rooks = side & npos.get_rooks() & home & wing;
+                let is_outermost = rooks.is_occupied()
+                    && file as i32
+                        == if is_ksc {
+                            rooks.hsb().file()
+                        } else {
+                            rooks.lsb().file()
+                        };
+                match (is_outermost, is_white, is_ksc) {
+                    (true, true, true) => 'K',
+                    (true, true, false) => 'Q',
+                    (true, false, true) => 'k',
+                    (true, false, false) => 'q',
+                    (false, true, _) => (b'A' + file) as char,
+                    (false, false, _) => (b'a' + file) as char,
+                }
+            };
+
             fen += " ";
             if npos.us_ksc {
-                fen += "K";
+                fen.push(letter(true, true, npos.castle_files[0]));
             }
             if npos.us_qsc {
-                fen += "Q";
+                fen.push(letter(true, false, npos.castle_files[1]));
             }
             if npos.them_ksc {
-                fen += "k";
+                fen.push(letter(false, true, npos.castle_files[2]));
             }
             if npos.them_qsc {
-                fen += "q";
+                fen.push(letter(false, false, npos.castle_files[3]));
             }
         }
 
